@@ -11,7 +11,7 @@ from .common import (BaseHooks, V, finite, fnum, is_qmat, key, logspace_sigma, n
 PROP = "C04"
 WORLDS_QUICK = ("pkg", "flat")
 WORLDS_THOROUGH = ("pkg", "flat", "pkg_then_flat", "flat_then_pkg")
-FAMILIES = ("generic", "herm", "unitary", "cI", "I_lowrank", "tri", "diagrep", "spread", "perm")
+FAMILIES = ("generic", "herm", "unitary", "cI", "I_lowrank", "tri", "diagrep", "spread", "perm", "near_I")
 B_KINDS = ("gauss", "gauss", "eigvec", "zero", "unit", "Ax_int")
 SWEEP_FOCUS = ["solve", "_solve_lower_triangular_quat", "_solve_upper_triangular_quat",
                "quaternion_lu", "quat_matmat"]
@@ -46,6 +46,12 @@ def gen_system(R, nmax):
     elif fam == "tri":
         A = {"gen": "tri", "n": n, "seed": s, "upper": R.random() < 0.5,
              "off": R.choice([0.1, 0.3])}
+    elif fam == "near_I":
+        # c (I + eps G): every cycle reduces the residual by about eps, so the restart
+        # residual passes through every decade (what an almost exact preconditioner gives)
+        eps = R.choice([1e-1, 1e-2, 1e-2, 1e-3])
+        A = {"gen": "add", "a": {"gen": "cI", "n": n, "c": 1.0},
+             "b": {"gen": "scale", "c": eps, "of": {"gen": "gauss", "m": n, "n": n, "seed": s}}}
     elif fam == "perm":
         # zero-diagonal unitary matrices (cyclic shift, anti-diagonal, random derangement-ish
         # permutation) with unit-quaternion entries: v^H A v = 0 for unit-vector right-hand
